@@ -26,7 +26,7 @@ RULE = (
 
 PARAMS = {
     'quick': dict(full=0, dense=3, light=40),
-    'thorough': dict(full=8, dense=40, light=400),
+    'thorough': dict(full=4, dense=24, light=400),
 }
 EXPECT = ('format(x) does not raise; N(validate(format(x))) == N(validate(x)); format(x) == format(validate(x))')
 
@@ -246,7 +246,7 @@ def _worker(task):
 def search(seed, tier):
     t0 = time.time()
     names = modules()
-    tasks = [(n, p, k, seed, tier) for (n, p, k) in G.module_tasks(names, tier, 40)]
+    tasks = [(n, p, k, seed, tier) for (n, p, k) in G.module_tasks(names, tier, 12)]
     results = G.run_tasks(_worker, G.schedule(tasks))
     results.sort(key=lambda r: r['task'])
     options = {}
